@@ -45,6 +45,14 @@ def generate(seed, tier):
             "fields": fields, "checks": []}
     if fmt in ("delimited", "fixed"):
         spec["line_delimiter"] = swarm.choice(["lf", "crlf", "cr", "any"])
+        if spec["line_delimiter"] == "any":
+            spec["eol"] = swarm.choice(["\n", "\r", "\r\n"])  # what the stored file actually uses
+    if swarm.random() < 0.25:
+        # the data format limits the characters of every field, whatever else the field checks
+        spec["props"] = [["allowed characters", "32...126"]]
+    for field in fields:
+        if field["type"] == "Text" and fmt != "fixed" and swarm.random() < 0.3:
+            field["length"] = ""  # a Text field without any length limit
     if swarm.random() < 0.4:
         names = [field["name"] for field in fields]
         spec["checks"].append(["uniq", "IsUnique", ", ".join(swarm.sample(names, swarm.randint(1, min(2, len(names)))))])
